@@ -34,5 +34,5 @@ Final report: for each change, one paragraph (what, where, why the suite misses 
 IDEAS ALREADY USED by earlier rounds (short names; the prefix is the property they were aimed at) — do NOT repeat them or close variants; find different mechanisms, files and triggers:
 """ + '\n'.join('  - ' + u for u in used) + """
 
-Prefer triggers and places earlier rounds used rarely or not at all, for example: a failing file-system operation (ENOSPC / EACCES / EIO, a short write) or a process killed at one specific point; one specific interleaving of two threads, or of two processes that share the token directory; C_Finalize / C_Initialize cycles and fork handling (library.reset_on_fork); configuration options (slots.removable, slots.mechanisms, objectstore.umask, objectstore.backend, log.level); the Botan crypto back-end; boundary values (lengths of exactly one block / one stdio buffer / 2^n, templates at the entry limit, many objects or handles, long histories); rarely used object classes, key types and mechanisms (certificates, CKO_DATA, domain parameters, DES2, generic secrets, EdDSA, X25519/X448, DSA/DH parameter generation, CMAC, AES-CTR/GCM parameter corners); the command-line tools where they matter for the property.""")
+Prefer triggers and places earlier rounds used rarely or not at all, for example: TWO COOPERATING SITES that each look fine alone (a value computed in one function and trusted in another; a default changed in one place; an invariant kept by callers that a new caller does not keep); long histories (counters, tables that grow, the hundredth object or session, handle numbers above 2^31 / 2^32, many C_Finalize / C_Initialize cycles); rarely used entry points (C_DigestKey, C_GetObjectSize, C_SeedRandom / C_GenerateRandom, C_GetOperationState, C_WaitForSlotEvent, C_GetMechanismInfo, C_InitPIN, C_CloseAllSessions) and rarely used object classes, key types and mechanisms (certificates, CKO_DATA, domain parameters, DES2, generic secrets of odd lengths, EdDSA, X25519/X448, DSA/DH parameter generation, CMAC, AES-CTR/GCM parameter corners, RSA-PSS / OAEP parameter corners); the command-line tools (softhsm2-util --import / --delete-token / --show-slots, softhsm2-keyconv, softhsm2-dump-file, softhsm2-dump-db) where they matter for the property; the Botan crypto back-end and the SQLite object store; memory-allocation failure or a failing RNG; one specific interleaving of two threads or two processes; a crash or a failing file-system operation at one specific point.""")
 if __name__ == '__main__': main()
